@@ -11,6 +11,7 @@ UNITS = {
     'Rand': (os.path.join(vlib.REPO, 'librfn/rand.c'), ['rand31_r']),
     'Rotenc': (os.path.join(vlib.REPO, 'librfn/rotenc.c'), ['rotenc_decode', 'rotenc_count14', 'rotenc_count']),
     'Hex': (os.path.join(vlib.REPO, 'librfn/hex.c'), ['hexchar', 'nibble']),
+    'Wav': (os.path.join(vlib.REPO, 'librfn/wavheader.c'), ['rf_wavheader_get_format']),
     'Util': (os.path.join(vlib.REPO, 'librfn/util.c'), ['cyclecmp32']),
 }
 
